@@ -173,11 +173,33 @@ def run(ctx):
         def key(e):
             return hash(repr(sorted(strip(e).items(), key=lambda kv: kv[0])))
 
-        settle("P", ctx.replay([dict(v) for v in fv], lane="P"))
+        ev_p = ctx.replay([dict(v) for v in fv], lane="P")
+        pmap = {key(e): e["res"] for e in ev_p}
+        settle("P", ev_p)
+        del ev_p
         try:
             ev_t = ctx.replay([dict(v) for v in fv], lane="T")
         except tlc.MachineryError as e:
             raise tlc.MachineryError("lane T (transliterated .pyx) unavailable: %s" % str(e)[-600:])
+        # the statement itself, literally: the same input gives the same result in both modules (the C sentinels standing for
+        # None).  Each lane is judged against the spec below as well, but where the spec allows either of two values (cprNL
+        # within 1e-9 deg of a transition) only this comparison sees the twins part.
+        SENT = {"common.typecode": (-1,), "common.gray2alt": (-1, -999999), "common.altitude": (-999999, -1), "common.altcode": (-999999, -1)}
+        ndis = 0
+        for e in ev_t:
+            rp = pmap.get(key(e))
+            rt = e["res"]
+            if rp is None or rp == rt:
+                continue
+            if rp.get("t") == "n" and rt.get("t") == "i" and rt.get("v") in SENT.get(e["fn"], ()):
+                continue
+            if rp.get("t") == "b" and rt.get("t") in ("b", "i") and rp.get("v") == rt.get("v"):
+                continue
+            ndis += 1
+            if ndis <= 200:
+                ctx.violation("c_and_python_twins_disagree", dict(strip(e), id=e["id"], res=rt, res_py=rp))
+        ctx.extra["lane_P_vs_T_disagreements"] = ndis
+        del pmap
         b_ok, stale = set(), {}
         ev_b = None
         try:
